@@ -110,4 +110,3 @@ Proof.
   apply render_chunks_transparent.
 Qed.
 End T.
-Print Assumptions emit_script_transparent.
